@@ -108,6 +108,11 @@ def r12_1(ctx: Ctx):
             continue
         # sequential scan: iterates the handle itself
         scans = [n for n in ast.walk(f.node) if isinstance(n, (ast.For, ast.comprehension)) and attr_chain(n.iter) == handle]
+        if not scans:
+            # the handle handed to an iterator adaptor (map / chain / iter / enumerate ...) is iterated sequentially as well
+            scans = [n for n in ast.walk(f.node) if isinstance(n, ast.Call) and call_name(n) in
+                     ("map", "chain", "iter", "enumerate", "zip", "filter", "groupby", "list", "tuple", "islice", "from_iterable")
+                     and any(attr_chain(a_) == handle for a_ in n.args)]
         if scans:
             seq_scans.append(f)
             continue
@@ -370,7 +375,20 @@ def r12_3(ctx: Ctx):
         okd = len(a) == 3 and const_int(a[0]) == 0 and const_int(a[2]) == 2 and norm(a[1]) == "len(%s)" % lst \
             and len(yd) == 1 and isinstance(yd[0].value, ast.Tuple) \
             and [norm(e) for e in yd[0].value.elts] == ["%s[%s]" % (lst, i), "%s[%s + 1]" % (lst, i)]
-    if rng:
+    # slice form: zip(list[::2], list[1::2]) (yield from / return iter(...)): evens are kinds, odds are counts
+    zips = [n for n in ast.walk(dec.node) if isinstance(n, ast.Call) and call_name(n) == "zip" and len(n.args) == 2
+            and all(isinstance(a_, ast.Subscript) and attr_chain(a_.value) == lst and isinstance(a_.slice, ast.Slice) for a_ in n.args)]
+    if not rng and zips:
+        def _sl(sub):
+            sl = sub.slice
+            return (const_int(sl.lower) if sl.lower is not None else 0, sl.upper is None, const_int(sl.step) if sl.step is not None else 1)
+        okz = _sl(zips[0].args[0]) == (0, True, 2) and _sl(zips[0].args[1]) == (1, True, 2)
+        outs = [n for n in walk_no_nested(dec.node) if isinstance(n, (ast.YieldFrom, ast.Return)) and n.value is not None
+                and any(x is zips[0] for x in ast.walk(n.value))]
+        others = [n for n in walk_no_nested(dec.node) if isinstance(n, (ast.Yield, ast.YieldFrom, ast.Return)) and n not in outs]
+        ctx.ob("R12.3", dec, zips[0], okz and len(outs) == 1 and outs[0].value is zips[0] and not others,
+               "the decoder pairs the even positions (kinds) with the odd positions (counts) of the list", node=zips[0])
+    elif rng:
         ctx.ob("R12.3", dec, rng[0], okd, "the decoder walks the list two by two and yields (kind, count)", node=rng[0])
     else:
         ctx.ob("R12.3", dec, "run-length decoder", True, "the decoder is not a `for i in range(0, len(list), 2)` loop; not decided on "
